@@ -224,15 +224,24 @@ func (x *Exec) callSitesCanon(fn *ssa.Function) map[token.Pos]string {
 
 // siteAnns returns the annotations for the call at pos when it belongs to the function under verification.
 func (x *Exec) siteAnns(st *State, fr *Frame, pos token.Pos) (string, []*SiteAnn) {
-	if len(st.frames) != 1 || x.curContract == nil || len(x.curContract.Sites) == 0 {
+	if x.curContract == nil || len(x.curContract.Sites) == 0 {
 		return "", nil
 	}
-	name, ok := x.callSites(fr.fn)[pos]
+	sfn := fr.fn
+	if len(st.frames) != 1 {
+		// a call written inside a function literal of the function under verification, executed inline
+		// (deferred recover closures): its site belongs to the enclosing function's source text
+		if len(st.frames) != 2 || fr.fn.Parent() == nil || fr.fn.Parent() != st.frames[0].fn {
+			return "", nil
+		}
+		sfn = st.frames[0].fn
+	}
+	name, ok := x.callSites(sfn)[pos]
 	if !ok {
 		return "", nil
 	}
 	anns := x.curContract.Sites[name]
-	if cn, ok := x.callSitesCanon(fr.fn)[pos]; ok && cn != name {
+	if cn, ok := x.callSitesCanon(sfn)[pos]; ok && cn != name {
 		if more := x.curContract.Sites[cn]; len(more) > 0 {
 			if len(anns) == 0 {
 				name = cn
@@ -845,6 +854,20 @@ func (x *Exec) step(st *State) []*State {
 				}
 				if a.Kind == "witness" {
 					// scenario: the callee's result is this term; it must be admissible (satisfy the callee's postconditions)
+					if ce, isCall := a.Cl.Expr.(*ast.CallExpr); isCall {
+						if id, isId := ce.Fun.(*ast.Ident); isId && id.Name == "tuple" {
+							tt, isTuple := i.Type().(*types.Tuple)
+							if !isTuple || tt.Len() != len(ce.Args) {
+								x.specFail(a.Cl, "tuple witness does not match the results of the call")
+							}
+							wr := &witnessReq{site: site, cl: a.Cl}
+							for k, ae := range ce.Args {
+								wr.vals = append(wr.vals, x.evalTerm(env, ae, tt.At(k).Type(), a.Cl))
+							}
+							x.pendingWitness = wr
+							continue
+						}
+					}
 					w := x.evalTerm(env, a.Cl.Expr, i.Type(), a.Cl)
 					x.pendingWitness = &witnessReq{val: w, site: site, cl: a.Cl}
 				}
@@ -2176,6 +2199,7 @@ func (x *Exec) havocMapAt(st *State, mt *types.Map, m Term) {
 
 type witnessReq struct {
 	val  Term
+	vals []Term // tuple witness: tuple(e0, e1, ...)
 	site string
 	cl   *Clause
 }
